@@ -154,6 +154,38 @@ func runC09(a *A) {
 		for _, d := range delivered {
 			ms, ok := d.(*ssa.MakeSlice)
 			if !ok {
+				// hand-over: the batch is the key's filled buffer itself, cut to exactly threshold rows with
+				// its capacity limited (buf[:N:N]), and before anything else happens the key's entry is
+				// replaced by a fresh slice or deleted - nothing the window keeps shares the batch's array
+				if sl, isSl := d.(*ssa.Slice); isSl && isThr(sl.High) && isThr(sl.Max) && sl.Low == nil {
+					if hin, isIn := d.(ssa.Instruction); isIn {
+						kb := func(v ssa.Value) bool { return isFieldOf(TermOf(v, nil), "window.CountingWindow", "keyedBuffer") }
+						handed := func(x ssa.Instruction) bool {
+							switch y := x.(type) {
+							case *ssa.MapUpdate:
+								if kb(y.Map) {
+									if _, fresh := y.Value.(*ssa.MakeSlice); fresh {
+										return true
+									}
+								}
+							case *ssa.Call:
+								if cc, isDel := isBuiltinCall(y, "delete"); isDel && kb(cc.Args[0]) {
+									return true
+								}
+							}
+							return false
+						}
+						leak := pathFromTo(hin, func(x ssa.Instruction) bool {
+							if _, isRet := x.(*ssa.Return); isRet {
+								return true
+							}
+							return isDelivery(x, func(v ssa.Value) *Term { return TermOf(v, nil) })
+						}, nil, handed)
+						a.Check(!leak, fname(g)+"#batch-fresh", d.Pos(), "the delivered batch is the key's own buffer handed over: cut to threshold rows with limited capacity, the key's entry replaced by a fresh slice or deleted before delivery",
+							"the delivered batch is a slice of the key's buffer and a path reaches the delivery without the key's entry having been replaced: the batch aliases the live per-key buffer")
+						continue
+					}
+				}
 				a.Bad(fname(g)+"#batch-fresh", d.Pos(), "the delivered batch is %s, not a freshly made slice: it may alias the live per-key buffer", TermOf(d, nil))
 				continue
 			}
@@ -218,7 +250,7 @@ func runC09(a *A) {
 	a.Rule("keyenc/counting", 1, func() { a.keyencRule("window", "CountingWindow", "getKey", keyencOpts{}) })
 	a.Rule("aggstate/reset", 2, func() { a.ruleAggregatorReset() })
 	a.Rule("flow/all-aggregates-fed", 1, func() { a.ruleAllAggregatesFed() })
-	a.Rule("fnsafe/alloc-bounded-by-data", 1, func() { a.ruleAllocBoundedByData() })
+	a.Rule("fnsafe/alloc-bounded-by-data", 0, func() { a.ruleAllocBoundedByData() })
 	a.Rule("flow/evicted-result-counted", 1, func() { a.ruleEvictedResultCounted(a.Named("window", "CountingWindow")) })
 	a.Rule("whomay/consumers", 3, func() {
 		w := W()
